@@ -541,6 +541,37 @@ def accessor_checks(src_text):
     return out
 
 
+# how the length of a slice argument reaches the bounds check
+SLICE_FORMS = {
+    'put_bytes': {'self:offset,src.len()asIndex': False, 'self:offset,Self::slice_len(src.len())': True},
+    'put_string': {'self:offset,string.len()asIndex+I32_SIZE': False, 'self:offset,length+I32_SIZE': True},
+    'put_string_without_length': {'self:offset,string.len()asIndex': False, 'self:offset,length': True},
+}
+
+
+def slice_forms(src_text):
+    """{accessor: True (checked conversion, panics above Index::MAX) | False (`as Index`, truncating)}"""
+    ac = accessor_checks(src_text)
+    code = strip_comments(src_text).split('#[cfg(test)]')[0]
+    out = {}
+    for a, forms in SLICE_FORMS.items():
+        calls, body = ac[a]
+        if len(calls) != 1 or calls[0] not in forms:
+            raise TranslateError('%s: bounds_check call %r is none of the known forms %s' % (a, calls, sorted(forms)))
+        chk = forms[calls[0]]
+        if chk:
+            if a != 'put_bytes' and 'letlength=Self::slice_len(string.len());' not in body:
+                raise TranslateError('%s: `length` is not `Self::slice_len(string.len())`' % a)
+            _, sl = find_fn(code, 'slice_len')
+            if not re.match(r'^Index::try_from\(len\)\.(expect\("[^"]*"\)|unwrap\(\))$', ''.join(sl.split())):
+                raise TranslateError('slice_len is not a checked conversion any more: %r' % ' '.join(sl.split()))
+        else:
+            if 'Self::slice_len' in body:
+                raise TranslateError('%s mixes `as Index` and slice_len' % a)
+        out[a] = chk
+    return out
+
+
 def hooked(src_text):
     return 'verif_hook::enter(' in strip_comments(src_text)
 
@@ -552,6 +583,7 @@ def gen_bounds():
     text = open(path).read()
     body, rust, names = translate_bounds(text)
     hk = hooked(text)
+    sf = slice_forms(text)
     esc = rust.replace('"', '""')
     lines = [
         '(* GENERATED on every run by tools/props/c16_translate.py from %s of the working tree. *)' % SRC,
@@ -568,9 +600,14 @@ def gen_bounds():
         '(* the accessors report to the verification hook before their first check (cfg unitedtraders_aeron_rs_verif) *)',
         'Definition gen_hooked : bool := %s.' % ('true' if hk else 'false'),
         '',
+        '(* how a slice length reaches the bounds check: true = checked conversion (panics above Index::MAX), false = `as Index` *)',
+        'Definition gen_chk_put_bytes : bool := %s.' % ('true' if sf['put_bytes'] else 'false'),
+        'Definition gen_chk_put_string : bool := %s.' % ('true' if sf['put_string'] else 'false'),
+        'Definition gen_chk_put_string_wl : bool := %s.' % ('true' if sf['put_string_without_length'] else 'false'),
+        '',
     ]
     changed = core.write_if_changed(os.path.join(core.COQ, 'Generated', 'GenBounds.v'), '\n'.join(lines))
-    return True, 'bounds_check: %s%s' % (rust, ' (rewritten)' if changed else '')
+    return True, 'bounds_check: %s; slice lengths checked: %s%s' % (rust, sf, ' (rewritten)' if changed else '')
 
 
 TABLES = [gen_bounds]
